@@ -183,12 +183,31 @@ def run(ctx, ck) -> None:
     from ..loader import string_constants
 
     sigs = [v.replace(' ', '') for v in string_constants(mv) if '->' in v]
-    ck.expect('Z3', sigs == ['(n),(k)->(n)'], mv, 'mv vectorises the kernel with signature (n),(k)->(n): independently per batch row, output length = input length',
+    import re as _re
+
+    # (a),(b)->(a) with two different core dimensions, whatever the letters: per batch row, output length = input length
+    m_sig = _re.fullmatch(r'\((\w+)\),\((\w+)\)->\((\w+)\)', sigs[0]) if len(sigs) == 1 else None
+    ck.expect('Z3', m_sig is not None and m_sig.group(1) == m_sig.group(3) and m_sig.group(1) != m_sig.group(2), mv,
+              'mv vectorises the kernel with signature (n),(k)->(n): independently per batch row, output length = input length',
               f'mv vectorises with signature {sigs}', instance='vectorize signature')
     mvt = [term(n) for n in ast.walk(mv) if isinstance(n, ast.Call)]
     M = ('var', mv.args.args[0].arg)
     ok_args = any(t[0] == 'call' and t[2] == (('var', mv.args.args[1].arg), ('attr', M, 'band_values')) for t in mvt)
-    ck.expect('Z3', ok_args, mv, 'the vectorised kernel receives (x, band_values) in the order of its signature', 'the vectorised kernel is not called with (x, self.band_values)', instance='kernel arguments')
+    if not ok_args:
+        # the second argument may be something computed from the band values (a kernel, a transfer function): recognised when a
+        # call passes (x, v) with v a local name whose definition mentions self.band_values; anything else is not decided here
+        x_name = mv.args.args[1].arg
+        derived = {t_.id for st in ast.walk(mv) if isinstance(st, ast.Assign) and 'band_values' in ast.unparse(st.value) for t_ in st.targets if isinstance(t_, ast.Name)}
+        via_local = any(isinstance(n, ast.Call) and len(n.args) == 2 and isinstance(n.args[0], ast.Name) and n.args[0].id == x_name and isinstance(n.args[1], ast.Name) and n.args[1].id in derived for n in ast.walk(mv))
+        swapped = any(isinstance(n, ast.Call) and len(n.args) == 2 and isinstance(n.args[1], ast.Name) and n.args[1].id == x_name and 'band_values' in ast.unparse(n.args[0]) for n in ast.walk(mv))
+        if via_local and not swapped:
+            ck.ok('Z3', mv, 'the vectorised kernel receives (x, a value computed from the band values) in the order of its signature', instance='kernel arguments')
+        elif swapped:
+            ck.bad('Z3', mv, 'the vectorised kernel is called with the band values first and x second: the roles of the two core dimensions are exchanged', instance='kernel arguments')
+        else:
+            ck.incomplete('Z3', mv, 'the call of the vectorised kernel is not of the form (x, band values or a value computed from them): not decided', instance='kernel arguments')
+    else:
+        ck.ok('Z3', mv, 'the vectorised kernel receives (x, band_values) in the order of its signature', instance='kernel arguments')
 
     # ------------------------------------------------------------------ Z3 kernels linear & trace safe, Z4 dtype, Z7/Z8 slices
     for m, fn in live.items():
